@@ -59,7 +59,7 @@ type Scenario struct {
 
 const loBits = 30
 
-func pair(a uint64) []int  { return []int{int(a >> loBits), int(a & (1<<loBits - 1))} }
+func pair(a uint64) []int   { return []int{int(a >> loBits), int(a & (1<<loBits - 1))} }
 func unpair(p []int) uint64 { return uint64(p[0])<<loBits | uint64(p[1]) }
 
 // pageMapper routes by page number: the port for address a is prefix<(a>>log2ps) % n>.Top.
@@ -97,17 +97,17 @@ type ptKey struct {
 }
 
 type run struct {
-	rec                 *ab.Recorder
-	eng                 *ab.Engine
-	top, bot, tr, ctrl  sim.Port
-	cfg                 Scenario
-	cyc                 int
-	memOwed             map[int]mem.AccessReq
-	tlbOwed             map[int]*vm.TranslationReq
-	pt                  map[ptKey]uint64
-	count               map[string]int
-	flushing            bool
-	stats               map[string]int
+	rec                *ab.Recorder
+	eng                *ab.Engine
+	top, bot, tr, ctrl sim.Port
+	cfg                Scenario
+	cyc                int
+	memOwed            map[int]mem.AccessReq
+	tlbOwed            map[int]*vm.TranslationReq
+	pt                 map[ptKey]uint64
+	count, used        map[string]int
+	flushing           bool
+	stats              map[string]int
 }
 
 func payloadOf(m mem.AccessReq) ab.Rec {
@@ -132,7 +132,7 @@ func rspData(m mem.AccessRsp) []int {
 
 func newRun(rec *ab.Recorder, cfg Scenario) *run {
 	r := &run{rec: rec, eng: ab.NewEngine(), cfg: cfg, memOwed: map[int]mem.AccessReq{}, tlbOwed: map[int]*vm.TranslationReq{},
-		pt: map[ptKey]uint64{}, count: map[string]int{}, stats: map[string]int{}}
+		pt: map[ptKey]uint64{}, count: map[string]int{}, used: map[string]int{}, stats: map[string]int{}}
 	rec.ResetIDs()
 	rec.SetBase("bot", 101)
 	rec.SetBase("tr", 201)
@@ -360,6 +360,8 @@ func (r *run) envCtrl(k string) bool {
 
 const awaitMax = 12
 
+var verbose bool
+
 func (r *run) step(s Step) {
 	ok := true
 	switch s.A {
@@ -398,8 +400,16 @@ func (r *run) step(s Step) {
 		r.await(awaitMax, func() bool { return r.ctrl.PeekOutgoing() != nil })
 		ok = r.ctrl.RetrieveOutgoing() != nil
 	case "Await":
-		c0 := r.count[s.E]
-		ok = r.await(awaitMax, func() bool { return r.count[s.E] > c0 })
+		// the component may have run ahead of the behaviour: an event of this kind that was
+		// observed but not yet matched by an Await satisfies the step at once
+		if r.used[s.E] >= r.count[s.E] {
+			u := r.used[s.E]
+			r.await(awaitMax, func() bool { return r.count[s.E] > u })
+		}
+		ok = r.count[s.E] > r.used[s.E]
+		if ok {
+			r.used[s.E]++
+		}
 	case "Tick":
 		n := s.N
 		if n == 0 {
@@ -409,10 +419,15 @@ func (r *run) step(s Step) {
 	default:
 		panic("unknown step " + s.A)
 	}
+	if verbose {
+		js, _ := json.Marshal(s)
+		fmt.Fprintf(os.Stderr, "cyc=%d ok=%v %s\n", r.cyc, ok, js)
+	}
 	if ok {
 		r.stats["steps_done"]++
 	} else {
 		r.stats["steps_skipped"]++
+		r.stats["skipped_"+s.A]++
 	}
 }
 
@@ -605,6 +620,7 @@ func main() {
 	nrand := flag.Int("random", 0, "number of random runs")
 	reqs := flag.Int("reqs", 30, "requests per random run")
 	seed := flag.Int64("seed", 1, "seed")
+	flag.BoolVar(&verbose, "v", false, "print every scenario step to stderr")
 	flag.Parse()
 
 	f, err := os.Create(*out)
